@@ -540,11 +540,9 @@ func RefMapEntry(ts TypeSpec, base int, s string) (key, val RefVal, cls Class) {
 	val = RefScalar(ts.K, base, vs)
 	cls = MustAccept
 	if key.Cls == MustReject || val.Cls == MustReject {
+		// ("k" without a colon and an element type for which the empty text is no value - numbers, durations -
+		// is rejected under the strict reading (not a key:value pair) and under the liberal one (k with an empty value))
 		cls = MustReject
-		if noColon && key.Cls != MustReject {
-			cls = MayEither // "k" without a colon: the text is not a key:value pair, but a liberal reader may default the value
-			val.HasVal = false
-		}
 		return
 	}
 	if key.Cls == MayEither || val.Cls == MayEither || noColon {
